@@ -90,10 +90,10 @@ def select_projects(tier, rng):
     thorough = tier == "thorough"
     gen_langs = list(P.LANGS)
     rng.shuffle(gen_langs)
-    n_gen = 21 if thorough else 3
+    n_gen = 21 if thorough else 2
     for i in range(n_gen):
         lang = gen_langs[i % len(gen_langs)]
-        g = P.gen_wide(lang, rng, n_funcs=rng.randint(10, 22) if thorough else rng.randint(10, 14),
+        g = P.gen_wide(lang, rng, n_funcs=rng.randint(8, 15) if thorough else rng.randint(6, 8),
                        n_classes=rng.randint(2, 5), n_files=rng.randint(2, 4))
         projs.append({"name": f"gen_wide_{lang}_{i}", "lang": lang, "files": pack_files(g["files"]), "settings": g["settings"],
                       "extra": [], "origin": "generated"})
@@ -115,7 +115,7 @@ def select_projects(tier, rng):
         small = [d for d in dirs if d["name"] in ("corpus_control_flows", "corpus_import_python", "corpus_dataflows_java",
                                                   "corpus_dataflows_c", "corpus_import_js", "corpus_import_php",
                                                   "corpus_import_java")]
-        chosen = small[:2] + rng.sample(files, min(len(files), 2))
+        chosen = small[:1] + rng.sample(files, min(len(files), 1))
     for c in chosen:
         fs = read_tree(c["path"], c["lang"])
         if not fs:
@@ -212,7 +212,12 @@ def build_plan(projs, seeds, tier, rng, root, tmpfs_root, timeout):
     thorough = tier == "thorough"
     s0 = seeds[0]
     others_pool = [p for p in projs if p["origin"] in ("hand", "generated")]
-    n = len(projs)
+    turn = [0]
+
+    def next_seed():
+        turn[0] += 1
+        return seeds[turn[0] % len(seeds)]
+
     for i, p in enumerate(projs):
         p["settings_dir"] = write_settings(os.path.join(root, "settings", _safe(p["name"])), p["settings"])
         p["in_root"] = os.path.join(root, "in", _safe(p["name"]))
@@ -226,66 +231,71 @@ def build_plan(projs, seeds, tier, rng, root, tmpfs_root, timeout):
             if s != s0:
                 plan.pairs.append(("hash-seed", p["name"], base[s0], base[s], "bytes", f"PYTHONHASHSEED {s0} vs {s}"))
         # repetitions
-        rep_seeds = seeds if thorough else ([s0, seeds[1 + i % (len(seeds) - 1)]] if i % 3 == 0 else [])
+        rep_seeds = seeds if thorough else ([next_seed(), next_seed()] if i % 3 == 0 else [])
         for s in rep_seeds:
             for r in (1, 2):
                 j = plan.job(p, s, f"rep{r}", workspace=p["same_ws"], **common_kw)
                 plan.pairs.append(("repetition", p["name"], base[s], j, "bytes", f"run {r + 1} vs run 1, PYTHONHASHSEED {s}"))
-        # workspace location: two other absolute paths of different length (one already containing 'lian_workspace')
-        loc_seeds = [s0, seeds[-1]] if thorough else [seeds[(i % len(seeds))]]
-        for s in loc_seeds:
-            locs = [("loc-long", os.path.join(root, "elsewhere_with_a_considerably_longer_directory_name", _safe(p["name"]), "nested", "deeper"))]
-            if thorough or i % 2 == 0:
-                locs.append(("loc-named", os.path.join(root, "w", _safe(p["name"])[:40], "my_lian_workspace_dir")))
-            for tag, ws in locs:
-                j = plan.job(p, s, tag, workspace=ws, **common_kw)
-                plan.pairs.append(("workspace-path", p["name"], base[s], j, "decoded", f"{tag}, PYTHONHASHSEED {s}"))
+        # workspace location: other absolute paths of different length (one already containing 'lian_workspace')
+        locs = [("loc-long", os.path.join(root, "elsewhere_with_a_considerably_longer_directory_name", _safe(p["name"]), "nested", "deeper"))]
+        if thorough or i % 2 == 0:
+            locs.append(("loc-named", os.path.join(root, "w", _safe(p["name"])[:40], "my_lian_workspace_dir")))
+        for tag, ws in locs:
+            s = next_seed()
+            j = plan.job(p, s, tag, workspace=ws, **common_kw)
+            plan.pairs.append(("workspace-path", p["name"], base[s], j, "decoded", f"{tag}, PYTHONHASHSEED {s}"))
         # process history
         if thorough or i % 3 == 1:
-            hs = seeds[(i + 1) % len(seeds)]
-            cands = [o for o in others_pool if o["name"] != p["name"] and not o["name"].startswith(p["name"].split("+")[0])]
+            cands = [o for o in others_pool if o["name"].split("+")[0] != p["name"].split("+")[0]]
             other = cands[(i * 7) % len(cands)]
             other2 = cands[(i * 7 + 3) % len(cands)]
             pre_run = {"op": "run", "lang": other["lang"], "in_paths": [other["in_path"]], "settings": other["settings_dir"],
                        "extra": other["extra"], "project": other["name"]}
             pre_run2 = dict(pre_run, lang=other2["lang"], in_paths=[other2["in_path"]], settings=other2["settings_dir"],
                             extra=other2["extra"], project=other2["name"])
-            stale_dir = os.path.join(root, "stale", _safe(p["name"]))
+            stale_dir = os.path.join(root, "stale", _safe(p["name"]) + f"_{turn[0]}")
             hist = [("hist-other-project-before", [pre_run]),
                     ("hist-prepopulated", [pre_run2, {"op": "junk"}]),
                     ("hist-stale-elsewhere", [dict(pre_run, at=stale_dir), {"op": "cwd_tmp", "dir": stale_dir}])]
             for tag, pre in hist:
+                hs = next_seed()
                 j = plan.job(p, hs, tag, workspace=p["same_ws"], pre=pre, **common_kw)
                 plan.pairs.append(("history", p["name"], base[hs], j, "bytes", f"{tag} ({pre[0]['project']}), PYTHONHASHSEED {hs}"))
         # file creation order (needs an order-sensitive file system for inputs AND workspace)
-        if tmpfs_root and not p.get("single_file") and len(p["files"]) >= 2 and (thorough or i % 2 == 0):
+        if tmpfs_root and not p.get("single_file") and len(p["files"]) >= 2 and (thorough or i % 2 == 0 or len(p["files"]) > 3):
             names = sorted(p["files"])
-            o1 = list(names)
-            o2 = list(reversed(names))
-            if thorough:
-                o3 = list(names); rng.shuffle(o3)
+            orders = [("orderA", list(names)), ("orderB", list(reversed(names)))]
+            if thorough and len(names) > 2:
+                o3 = list(names)
+                random.Random(f"{p['name']}").shuffle(o3)
+                if o3 not in (orders[0][1], orders[1][1]):
+                    orders.append(("orderC", o3))
             ws = os.path.join(tmpfs_root, "ws", _safe(p["name"]))
+            s = next_seed()
             ids = []
-            for tag, order in (("orderA", o1), ("orderB", o2)) + ((("orderC", o3),) if thorough and o3 not in (o1, o2) else ()):
+            for tag, order in orders:
                 in_root = os.path.join(tmpfs_root, "in", tag, _safe(p["name"]))
                 in_path = materialise(p, in_root, order)
-                ids.append((tag, plan.job(p, s0, tag, workspace=ws, in_path=in_path, in_root=in_root)))
+                ids.append((tag, plan.job(p, s, tag, workspace=ws, in_path=in_path, in_root=in_root)))
             for tag, j in ids[1:]:
                 plan.pairs.append(("file-creation-order", p["name"], ids[0][1], j, "decoded",
-                                   f"files created in {tag} vs orderA (sorted) order on {tmpfs_root}"))
-    # true CLI runs, one per (project, seed) chosen so that different workers carry them; placed first (they are long)
+                                   f"files created in {tag} vs orderA (sorted) order on {os.path.dirname(tmpfs_root)}, PYTHONHASHSEED {s}"))
+    # true CLI runs against a forked twin at the same (private) path; placed first in their worker's list (they are long)
     n_cli = 10 if thorough else 3
     cli_projs = [p for p in projs if p["origin"] in ("hand", "generated", "hand-options")]
     for k in range(min(n_cli, len(cli_projs))):
-        p = cli_projs[(k * 3) % len(cli_projs)]
+        p = cli_projs[(k * 3 + 1) % len(cli_projs)]
         s = seeds[k % len(seeds)]
-        j = plan.job(p, s, "cli", kind="cli", workspace=p["same_ws"], in_path=p["in_path"], in_root=p["in_root"], front=True)
-        plan.pairs.append(("cli-vs-fork", p["name"], f"{p['name']}|s{s}|base", j, "bytes", f"true CLI run vs forked run, PYTHONHASHSEED {s}"))
+        ws = os.path.join(root, "cli", _safe(p["name"]) + f"_s{s}")
+        kw = dict(workspace=ws, in_path=p["in_path"], in_root=p["in_root"])
+        a = plan.job(p, s, "cli-twin", front=True, **kw)
+        b = plan.job(p, s, "cli", kind="cli", front=True, **kw)
+        plan.pairs.append(("cli-vs-fork", p["name"], a, b, "bytes", f"true CLI run vs forked run, PYTHONHASHSEED {s}"))
     # rotate each worker's list so that different workers are busy with different projects (they share the paths)
     for k, s in enumerate(seeds):
         lst = plan.jobs.get(s, [])
-        cli = [j for j in lst if j["kind"] == "cli"]
-        rest = [j for j in lst if j["kind"] != "cli"]
+        cli = [j for j in lst if j["id"].endswith("|cli") or j["id"].endswith("|cli-twin")]
+        rest = [j for j in lst if j not in cli]
         if rest:
             off = (k * len(rest)) // len(seeds)
             rest = rest[off:] + rest[:off]
@@ -545,6 +555,10 @@ def main():
     n_jobs = sum(len(v) for v in plan.jobs.values())
     results = run_workers(plan, root, 3300 if thorough else 420, chk)
     chk.evaluated(len(results))
+    slow = sorted(((r["wall"], r.get("value", {}).get("run_s") if r["status"] == "ok" else None,
+                    r.get("value", {}).get("lock_wait") if r["status"] == "ok" else None, jid) for jid, r in results.items()), reverse=True)
+    chk.extra["slowest_jobs(wall,run_s,lock_wait,id)"] = slow[:12]
+    chk.extra["total_lock_wait_s"] = round(sum(x[2] or 0 for x in slow), 1)
     chk.count("runs performed (each a complete `run` in its own process)", len(results))
     chk.extra["hash_seeds"] = seeds
     chk.extra["jobs_planned"] = n_jobs
@@ -576,6 +590,15 @@ def main():
             for sig, desc, w in res:
                 chk.note_inconclusive("harness: forked run and true CLI run disagree: " + desc)
             continue
+        if dim == "history":
+            # the history step must really have happened: another project's artefacts were there before the run
+            pre = results[pair[3]]["value"].get("pre", [])
+            ok_pre = bool(pre) and all((e[0] in ("run", "run-elsewhere") and e[1] == 0 and (e[2] or 0) >= 40) or
+                                       (e[0] == "junk" and e[1] >= 45) or (e[0] == "cwd_tmp" and "lian_workspace" in e[1]) for e in pre)
+            if not ok_pre:
+                chk.note_inconclusive(f"history step of {pair[3]} did not leave the intended state: {pre}")
+                continue
+            chk.count("history steps confirmed (another project's output / junk was present before the run)", len(pre))
         chk.count(f"run pairs compared: {dim}")
         chk.nontrivial_case((pname, dim))
         snap = results[pair[2]]["value"]["snapshot"]
